@@ -34,6 +34,8 @@ pub enum StallPoint {
     GzipFrameTail,
     /// direct https: the peer accepts the TCP connection and never says anything (the TLS handshake stalls)
     TlsHandshake,
+    /// https through a proxy: the proxy reads the CONNECT request and stalls inside its reply head
+    ConnectReply,
 }
 
 #[derive(Debug, Clone, Serialize, Deserialize, PartialEq, Eq, Hash)]
@@ -121,6 +123,7 @@ fn split_response(point: StallPoint) -> (Vec<u8>, Vec<u8>) {
     let (wire, k) = match point {
         StallPoint::Connect | StallPoint::ConnectNamed | StallPoint::TlsHandshake | StallPoint::Upload | StallPoint::BeforeReply => (length.clone(), 0),
         StallPoint::GzipFrameTail => (gz_chunked.clone(), gz_chunked.len() - 5),
+        StallPoint::ConnectReply => (b"HTTP/1.1 200 Connection established\r\nX-Proxy: p\r\n\r\n".to_vec(), 17),
         StallPoint::InStatusLine => (length.clone(), 10),
         StallPoint::InHeader => (length.clone(), find(&length, b"X-Pad") + 9),
         StallPoint::AfterHead => (length.clone(), find(&length, b"\r\n\r\n") + 4),
@@ -426,7 +429,8 @@ fn run_once(case: &Case) -> Result<Observed, String> {
     let scripts = if case.prepared == 2 && matches!(case.scenario, Scenario::Complete { .. }) && scripts.len() == 1 { vec![scripts[0].clone(), scripts[0].clone()] } else { scripts };
     let mut hole = if connect_stall { Some(crate::peers::black_hole(false, 1).map_err(|e| format!("black hole: {e}"))?) } else { None };
     let tls_stall = matches!(case.scenario, Scenario::Stall { point: StallPoint::TlsHandshake, .. });
-    let tunnel = case.tunnel && scripts.len() == 1 && !upload && !connect_stall && !tls_stall && case.prepared != 2;
+    let connect_reply_stall = matches!(case.scenario, Scenario::Stall { point: StallPoint::ConnectReply, .. });
+    let tunnel = case.tunnel && scripts.len() == 1 && !upload && !connect_stall && !tls_stall && !connect_reply_stall && case.prepared != 2;
     let mut server = if tunnel { tunnel_script_server("good", scripts.into_iter().next().unwrap()) } else { script_server(scripts) }.map_err(|e| format!("server: {e}"))?;
     install_sched(&case.sched);
     let proxy_port = server.addr.port();
@@ -438,7 +442,7 @@ fn run_once(case: &Case) -> Result<Observed, String> {
         "http://holes.test:81/x".to_string()
     } else if let Some(h) = &hole {
         format!("http://{}/x", h.addr)
-    } else if tunnel {
+    } else if tunnel || connect_reply_stall {
         "https://127.0.0.1:4443/x".to_string()
     } else if tls_stall {
         format!("https://127.0.0.1:{}/x", server.addr.port())
@@ -464,7 +468,7 @@ fn run_once(case: &Case) -> Result<Observed, String> {
             repolls: 0,
             reread_clean_eof: false,
         };
-        client_part(case, &url, upload, t0, &mut obs, if tunnel { Some(proxy_port) } else { None }, resolve);
+        client_part(case, &url, upload, t0, &mut obs, if tunnel || connect_reply_stall { Some(proxy_port) } else { None }, resolve);
         let _ = tx.send(obs);
     });
     // the property itself bounds the duration of every call: a client that is still busy long after both timeouts is
@@ -575,6 +579,15 @@ labelled points of the watchdog / reader (verif-hooks H3). Oracle S1-S4. non-tri
             v.push(Case { scenario: Scenario::Complete { framing, payload: 400, extra_reads: vec![(10, 0)] }, t_ms: 300, r_ms: 5000, reads: vec![4096], sched: vec![], tunnel: false, api: 0, prepared: 1 });
             v.push(Case { scenario: Scenario::Complete { framing, payload: 400, extra_reads: vec![(10, 0)] }, t_ms: 300, r_ms: 5000, reads: vec![4096], sched: vec![], tunnel: false, api: 0, prepared: 2 });
         }
+        // the proxy stalls inside its CONNECT reply: read timeout alone, and an overall timeout
+        v.push(Case { scenario: Scenario::Stall { point: StallPoint::ConnectReply, drip_ms: 0 }, t_ms: 0, r_ms: 150, reads: vec![4096], sched: vec![], tunnel: false, api: 0, prepared: 0 });
+        v.push(Case { scenario: Scenario::Stall { point: StallPoint::ConnectReply, drip_ms: 0 }, t_ms: 2500, r_ms: 150, reads: vec![4096], sched: vec![], tunnel: false, api: 0, prepared: 0 });
+        v.push(Case { scenario: Scenario::Stall { point: StallPoint::ConnectReply, drip_ms: 0 }, t_ms: 300, r_ms: 5000, reads: vec![4096], sched: vec![], tunnel: false, api: 0, prepared: 0 });
+        // a read timeout of zero: no stall at all is tolerated (the call fails, it does not wait)
+        for p in [StallPoint::BeforeReply, StallPoint::InLengthBody, StallPoint::InChunkData] {
+            v.push(Case { scenario: Scenario::Stall { point: p, drip_ms: 0 }, t_ms: 0, r_ms: 0, reads: vec![4096], sched: vec![], tunnel: false, api: 0, prepared: 0 });
+        }
+        v.push(Case { scenario: Scenario::Stall { point: StallPoint::AfterHead, drip_ms: 0 }, t_ms: 2500, r_ms: 0, reads: vec![4096], sched: vec![], tunnel: false, api: 0, prepared: 0 });
         v.push(Case { scenario: Scenario::Successor { pause_ms: 400 }, t_ms: 150, r_ms: 5000, reads: vec![], sched: vec![], tunnel: false, api: 0, prepared: 0 });
         v.push(Case { scenario: Scenario::Stall { point: StallPoint::ConnectNamed, drip_ms: 0 }, t_ms: 300, r_ms: 5000, reads: vec![4096], sched: vec![], tunnel: false, api: 0, prepared: 0 });
         // the connection attempt itself is never answered
@@ -636,6 +649,7 @@ labelled points of the watchdog / reader (verif-hooks H3). Oracle S1-S4. non-tri
             2 => Just(StallPoint::InCloseBody),
             1 => Just(StallPoint::GzipFrameTail),
             1 => Just(StallPoint::TlsHandshake),
+            1 => Just(StallPoint::ConnectReply),
         ];
         let scenario = prop_oneof![
             6 => (point, prop_oneof![2 => Just(0u8), 1 => 15u8..60]).prop_map(|(point, drip_ms)| Scenario::Stall { point, drip_ms }),
@@ -751,7 +765,7 @@ labelled points of the watchdog / reader (verif-hooks H3). Oracle S1-S4. non-tri
                             }
                         }
                     }
-                    ctx.nontrivial = !matches!(point, StallPoint::Connect | StallPoint::ConnectNamed | StallPoint::TlsHandshake | StallPoint::Upload | StallPoint::BeforeReply | StallPoint::InStatusLine | StallPoint::InHeader) || *drip_ms > 0;
+                    ctx.nontrivial = !matches!(point, StallPoint::Connect | StallPoint::ConnectNamed | StallPoint::TlsHandshake | StallPoint::ConnectReply | StallPoint::Upload | StallPoint::BeforeReply | StallPoint::InStatusLine | StallPoint::InHeader) || *drip_ms > 0;
                     ctx.label(match point {
                         StallPoint::Connect => "stall:connect",
                         StallPoint::ConnectNamed => "stall:connect(two raced addresses)",
@@ -767,9 +781,11 @@ labelled points of the watchdog / reader (verif-hooks H3). Oracle S1-S4. non-tri
                         StallPoint::InCloseBody => "stall:close-body",
                         StallPoint::GzipFrameTail => "stall:after-the-gzip-stream-before-the-last-chunk",
                         StallPoint::TlsHandshake => "stall:tls-handshake",
+                        StallPoint::ConnectReply => "stall:inside-the-proxy's-connect-reply",
                     });
                     ctx.label_if(*drip_ms > 0, "drip");
                     ctx.label_if(t == 0, "read-timeout-only");
+                    ctx.label_if(r == 0, "read-timeout-of-zero");
                     ctx.label_if(repoll && obs.repolls > 0, "caller-read-again-after-read-timeout");
                     ctx.label_if(case.api != 0 && !repoll, ["", "consumed-with:bytes", "consumed-with:text_utf8", "consumed-with:text"][case.api as usize % 4]);
                 }
